@@ -1,5 +1,6 @@
 """C11 - on-chain conclusions depend only on the chain, not on how it was delivered (structural part)."""
 from engine import *
+import linforms
 import provenance
 import guards
 import arith
@@ -563,3 +564,4 @@ def r11J(F):
 	return out
 
 RULES.append(('11.J', 'a late counterparty-commitment update fails its HTLCs at the height of the pending funding spend entry (all components of the description come from the entry)', r11J))
+RULES.append(('11.K', 'constant census of linear forms: every comparison (normalised to sum >= K over name-free atoms, a comparison and its negation being one form) and every maximal arithmetic expression of a reviewed function keeps its coefficients and its constant - a dropped or added `+ 1` / `- 1`, `<` for `<=` inside a computed bound, a scale factor applied twice or not at all, swapped operands of a comparison (rules/linforms.py; shapes that appear or disappear are not judged, the guard / arithmetic censuses judge those)', lambda F: linforms.for_property(F, 'C11', '11.K')))
